@@ -94,6 +94,10 @@ RmCallOut(o, k) ==          \* remove_call_out("cb") or remove_call_out(handle):
 Many(o, i) == /\ alive[o] /\ bulk[o] = <<>>
               /\ SetH(IncN(H, slot[<<o, i>>], BulkN)) /\ bulk' = [bulk EXCEPT ![o] = <<slot[<<o, i>>]>>]
               /\ UNCHANGED <<slot, couts, alive, inp, conn>>
+\* o keeps BulkN clones of one blueprint alive (references to objects, not to a heap value: the blueprint's program is
+\* referenced BulkN + 1 times); Unmany destructs them
+ManyClones(o) == /\ alive[o] /\ bulk[o] = <<>> /\ bulk' = [bulk EXCEPT ![o] = <<0>>]
+                 /\ UNCHANGED <<kind, child, rc, slot, couts, alive, inp, conn>>
 Unmany(o) == /\ alive[o] /\ bulk[o] # <<>>
              /\ SetH(DecN(H, bulk[o][1], BulkN)) /\ bulk' = [bulk EXCEPT ![o] = <<>>]
              /\ UNCHANGED <<slot, couts, alive, inp, conn>>
